@@ -9,3 +9,8 @@ import PorepyVerif.C09.Props
 #print axioms PorepyVerif.C09.recomputation_is_bounded
 #print axioms PorepyVerif.C09.only_documented_errors
 #print axioms PorepyVerif.C09.time_index_counts_accepted
+#print axioms PorepyVerif.C09.all_converged_finishes
+#print axioms PorepyVerif.C09.all_converged_hits_every_scheduled
+#print axioms PorepyVerif.C09.constant_dt_times
+#print axioms PorepyVerif.C09.constant_dt_failure_raises
+#print axioms PorepyVerif.C09.constant_dt_hits_partial
